@@ -8,7 +8,7 @@
    whatever formats or ignore patterns were used") is proved for flat trees (one history at the root, no renames) with
    ANY number of generations: C03_unchanged_tree_all_exit_0 and C03_flat_cycle below; for nested histories and
    renames the composition is carried by the lockstep correspondence. *)
-From MHL Require Import Model.Commands Gen.Generated Proofs.BaseFacts Proofs.TreeFacts Proofs.VerifyFacts Proofs.FreshFacts Proofs.HistFacts Proofs.FlatFacts Proofs.ReloadFacts Proofs.NestedFacts Proofs.SfNestedFacts.
+From MHL Require Import Model.Commands Gen.Generated Proofs.BaseFacts Proofs.TreeFacts Proofs.VerifyFacts Proofs.FreshFacts Proofs.HistFacts Proofs.FlatFacts Proofs.ReloadFacts Proofs.NestedFacts Proofs.SfNestedFacts Proofs.SfAlteredFacts.
 
 Theorem C03_verify_reports_exactly : forall Hb matches C cdig t ipats ifile hs,
   load C cdig t = inl hs -> lh_gens (root_hist hs) <> [] ->
@@ -351,6 +351,39 @@ Theorem C03_nested_sf_unchanged_exit_0 : forall Hb matches C cdig ser h0 kids hs
 Proof. exact create_sf_nested_unchanged_exit_0. Qed.
 Print Assumptions C03_nested_sf_unchanged_exit_0.
 
+(* ... and the detection half of the named-files form: a file at or below a named path (sp) that is recorded in the history
+   it belongs to, and whose recorded digests are all out of date, makes the run exit 11 -- whichever formats are asked for
+   (recorded for that file or not; the command reads its verdict from the first requested format only, and this says that
+   is enough), however deep the file sits below the named folder, and in whichever nested history it is recorded *)
+Theorem C03_nested_sf_altered_exit_11 : forall Hb matches C cdig ser h0 kids hs req sf ip ifl sp p c,
+  wf_tree C (Dir h0 kids) -> load C cdig (Dir h0 kids) = inl hs -> req <> [] ->
+  In sp sf ->
+  In (p, c) (sf_files matches C (set_patterns (latest_patterns (lh_gens (root_hist hs))) ip (pattern_file_lines ifl)) (Dir h0 kids) sp) ->
+  find_original (lh_gens (route_to hs p)) (strip_prefix (lh_root (route_to hs p)) p) <> None ->
+  (forall f e, find_first (lh_gens (route_to hs p)) (strip_prefix (lh_root (route_to hs p)) p) f = Some e -> e_digest e <> digest_text Hb f c) ->
+  o_outcome (snd (create_sf Hb matches C cdig ser (Dir h0 kids) req sf ip ifl)) = Exit 11.
+Proof. exact create_sf_nested_altered_exit_11. Qed.
+Print Assumptions C03_nested_sf_altered_exit_11.
+(* the same for create in folder mode over any nesting: one such file anywhere among the files the run visits *)
+Theorem C03_nested_create_altered_exit_11 : forall Hb matches C cdig ser h0 kids hs req no_dh ip ifl p c,
+  wf_tree C (Dir h0 kids) -> load C cdig (Dir h0 kids) = inl hs -> req <> [] ->
+  In (p, c) (ev_files (events matches C (set_patterns (latest_patterns (lh_gens (root_hist hs))) ip (pattern_file_lines ifl)) [] (Dir h0 kids))) ->
+  find_original (lh_gens (route_to hs p)) (strip_prefix (lh_root (route_to hs p)) p) <> None ->
+  (forall f e, find_first (lh_gens (route_to hs p)) (strip_prefix (lh_root (route_to hs p)) p) f = Some e -> e_digest e <> digest_text Hb f c) ->
+  o_outcome (snd (create_folder Hb matches C cdig ser (Dir h0 kids) req no_dh false ip ifl)) = Exit 11.
+Proof. exact create_nested_altered_exit_11. Qed.
+Print Assumptions C03_nested_create_altered_exit_11.
+(* every verdict of such a run on that file is a failure, and every requested format has a verdict *)
+Theorem C03_altered_file_every_verdict_fails : forall gens p dg req x,
+  find_original gens p <> None -> (forall f e, find_first gens p f = Some e -> e_digest e <> dg f) ->
+  In x (snd (seal gens p dg req)) -> snd x = false.
+Proof. exact altered_all_verdicts_false. Qed.
+Print Assumptions C03_altered_file_every_verdict_fails.
+Theorem C03_every_requested_format_has_a_verdict : forall gens p dg req f0,
+  In f0 req -> exists x, In x (snd (seal gens p dg req)) /\ fst x = f0.
+Proof. exact requested_has_verdict. Qed.
+Print Assumptions C03_every_requested_format_has_a_verdict.
+
 (* non-vacuity: a folder `a` sealed on its own (one generation, one file), placed beside a second file in a tree whose
    root has no history yet: the state holds; the run at the root writes into BOTH histories, exits 0, and the result
    verifies *)
@@ -374,4 +407,29 @@ Proof.
   split; [|vm_compute; split; reflexivity].
   split; [apply nprev_b_ok; vm_compute; reflexivity|]. split; [apply (ncur_b_ok c03_Hb N); vm_compute; reflexivity|].
   split; [vm_compute; constructor|]. split; vm_compute; reflexivity.
+Qed.
+
+(* non-vacuity of the -sf detection: the file inside `a` altered, the folder `a` named from the root in a format that
+   was never recorded for it: the hypotheses hold and the run exits 11 *)
+Definition c03_t2 : node N := Eval vm_compute in alter N [[97%N]; [102%N]] (fun _ => Some (@File N [9%N])) c03_t.
+Example C03_nested_sf_altered_nonvacuous :
+  match load N c03_cdig c03_t2 with
+  | inl hs =>
+      let p := [[97%N]; [102%N]] in
+      wf_tree N c03_t2 /\
+      In (p, [9%N]) (sf_files c03_m N (set_patterns (latest_patterns (lh_gens (root_hist hs))) [] (pattern_file_lines [])) c03_t2 [[97%N]]) /\
+      find_original (lh_gens (route_to hs p)) (strip_prefix (lh_root (route_to hs p)) p) <> None /\
+      (forall f e, find_first (lh_gens (route_to hs p)) (strip_prefix (lh_root (route_to hs p)) p) f = Some e -> e_digest e <> digest_text c03_Hb f [9%N]) /\
+      o_outcome (snd (create_sf c03_Hb c03_m N c03_cdig c03_ser c03_t2 [Sha1] [[[97%N]]] [] [])) = Exit 11 /\
+      In (p, [9%N]) (ev_files (events c03_m N (set_patterns (latest_patterns (lh_gens (root_hist hs))) [] (pattern_file_lines [])) [] c03_t2)) /\
+      o_outcome (snd (create_folder c03_Hb c03_m N c03_cdig c03_ser c03_t2 [Xxh64; Sha1] false false [] [])) = Exit 11
+  | inr _ => False
+  end.
+Proof.
+  vm_compute load. cbv zeta. split.
+  { vm_compute. constructor; [cbn; repeat constructor; cbn; intuition discriminate|].
+    repeat constructor; cbn; intuition discriminate. }
+  split; [vm_compute; left; reflexivity|]. split; [vm_compute; discriminate|].
+  split; [|split; [vm_compute; reflexivity|split; [vm_compute; tauto|vm_compute; reflexivity]]].
+  intros f e H. destruct f; vm_compute in H; try discriminate; injection H as <-; vm_compute; discriminate.
 Qed.
